@@ -225,7 +225,8 @@ pub fn gen_map(rng: &mut Rng, o: &GenOpts) -> String {
                 };
                 if rng.chance(1, 2) {
                     let ns: Vec<String> = (0..=rep).map(|_| rng.pick(&["0", "2", "4", "8", "10"]).to_string()).collect();
-                    let nb: Vec<String> = (0..=rep).map(|_| format!("{}:{}", rng.below(4), rng.below(4))).collect();
+                    // (known shape: an edge set with all five components may name a sample FILE for one node)
+                    let nb: Vec<String> = (0..=rep).map(|_| if o.known_shapes && rng.chance(1, 25) { "1:2:0:0:n.wav".to_string() } else { format!("{}:{}", rng.below(4), rng.below(4)) }).collect();
                     l.push_str(&format!(",{},{},{}", ns.join("|"), nb.join("|"), bank_info(rng, h)));
                 }
                 l
